@@ -55,6 +55,35 @@ func (s *Sim) mutateConf() *ConfSpec {
 	r := s.rng
 	c := s.conf.Clone()
 	n := r.Range(1, 3)
+	// directed: lower a max-applications setting to (or below) what is running right now
+	if s.post != nil && r.Bool(s.pf.MaxApps*0.7) {
+		var busy []string
+		for _, path := range sortedKeys(s.post.Queues) {
+			if q := s.post.Queues[path]; q.Running >= 1 && path != "root" && c.Find(path) != nil {
+				busy = append(busy, path)
+			}
+		}
+		if len(busy) > 0 {
+			path := pick(r, busy)
+			running := int(s.post.Queues[path].Running)
+			newMax := uint64(running - r.Intn(2))
+			if newMax < 1 {
+				newMax = 1
+			}
+			var lower func(q *QSpec)
+			lower = func(q *QSpec) {
+				if q.MaxApps == 0 || q.MaxApps > newMax {
+					q.MaxApps = newMax
+				}
+				for _, ch := range q.Children {
+					lower(ch)
+				}
+			}
+			lower(c.Find(path))
+			s.probe("directed_lower_maxapps")
+			n = r.Range(0, 1)
+		}
+	}
 	for i := 0; i < n; i++ {
 		qs := c.allQueues()
 		path := pick(r, qs)
